@@ -674,6 +674,15 @@ class PrefixSum:
         canon = {d: z3.Int(f"cidx!{d}") for d in a.dims}
         term = z3.simplify(a._elem(canon))
         n = z3.simplify(_sz(a.sizes[dim]))
+        self.factor = None
+        if symx.ctx().ghost.get("sum-linearity") and z3.is_mul(term):
+            # normal form under linearity of finite sums (lean/SumFacts.lean: sum_const_mul): a factor that does not
+            # depend on the summation index is moved in front of the sum, sum_i c*w(i) = c * sum_i w(i)
+            const = [t for t in term.children() if not _mentions(t, canon[dim])]
+            rest = [t for t in term.children() if _mentions(t, canon[dim])]
+            if const and rest:
+                self.factor = (z3.simplify(z3.Product(const)) if len(const) > 1 else const[0], canon)
+                term = z3.simplify(z3.Product(rest)) if len(rest) > 1 else rest[0]
         key = (term.get_id(), tuple(self.others), dim)
         if key not in reg:
             fn = z3.Function(f"Psum!{len(reg)}", *([z3.IntSort()] * (len(self.others) + 1)), symx.Val)
@@ -688,7 +697,11 @@ class PrefixSum:
                 for i in range(0, kk.as_long() + 1):
                     tot = tot + self.a._elem({**idx, self.dim: z3.IntVal(i)})
                 return tot
-        return self.fn(*[idx[d] for d in self.others], k)
+        s = self.fn(*[idx[d] for d in self.others], k)
+        if self.factor is not None:
+            f, canon = self.factor
+            return z3.substitute(f, [(canon[d], idx[d] if z3.is_expr(idx[d]) else z3.IntVal(idx[d])) for d in self.others]) * s
+        return s
 
     def axioms_at(self, idx, k):
         """recurrence instances at position k (and the base case) - facts of the assumed contract"""
@@ -697,6 +710,20 @@ class PrefixSum:
             self.at(idx, z3.IntVal(-1)) == 0,
             self.at(idx, k) == self.at(idx, k - 1) + a._elem({**idx, self.dim: k}),
         ]
+
+
+def _mentions(t, v):
+    seen = set()
+    stack = [t]
+    while stack:
+        x = stack.pop()
+        if x.get_id() in seen:
+            continue
+        seen.add(x.get_id())
+        if x.eq(v):
+            return True
+        stack.extend(x.children())
+    return False
 
 
 class _Weighted:
